@@ -182,6 +182,15 @@ def des_crypt(key, blk, dec=False):
     return _perm((r << 32) | l, 64, FP_T).to_bytes(8, 'big')
 
 
+def des_block_reaching(key, rnd, L, R):
+    """the plaintext block whose state after `rnd` rounds (1..16) is (L, R)"""
+    ks = des_subkeys(key)
+    l, r = L, R
+    for i in range(rnd - 1, -1, -1):
+        l, r = r ^ des_f(l, ks[i]), l
+    return _perm((l << 32) | r, 64, FP_T).to_bytes(8, 'big')
+
+
 def des_enc(key, blk):
     return des_crypt(key, blk)
 
